@@ -85,8 +85,20 @@ def push_sequences(world, e, limit=64):
             return res
         if x.op == "out" and x.info[0].rsplit("::", 1)[-1] in ("append", "extend", "extend_from_slice"):
             res = []
+            # what is appended: a literal list / `literal.into_iter().map(f)` is spelled out; anything else stays one collection-valued item
+            arg = world.ident(x.args[-1], expand_ws=False)
+            tails = None
+            if arg.op == "call" and world.callee_body(arg) is None and isinstance(arg.info, str) and arg.info.rsplit("::", 1)[-1] == "map" and \
+                    len(arg.args) == 2 and arg.args[1].op == "closure":
+                from ..callgraph import literal_elems
+                lit = literal_elems(world, arg.args[0])
+                if lit is not None:
+                    tails = [[world.apply_closure(arg.args[1], [el]) for el in lit]]
             for s in go(x.args[0], depth + 1):
-                res.append(s + [x.args[-1]])
+                if tails is None:
+                    res.append(s + [x.args[-1]])
+                else:
+                    res.extend(s + t for t in tails)
             return res
         if x.op == "phi":
             res = []
